@@ -1110,7 +1110,7 @@ theorem EntriesDistinct.filter {o : BuildOpts} {ps : List Policy} (h : EntriesDi
     some enforced policy's generated rules match. -/
 theorem buildAction_eval (o : BuildOpts) (action : RAction) (req : Request) (ps : List Policy)
     (hnd : EntriesDistinct o ps) :
-    evalFilters (optFilter o.forTCP (buildAction o action ps)) req =
+    evalFilters (optFilter o.shapeTCP (buildAction o action ps)) req =
       match action with
       | .log => true
       | .deny => !((ps.filter (fun p => !p.dryRun)).any (compiledPolicyMatch o false req))
